@@ -171,6 +171,8 @@ class FactoredInference:
  
         theta = model.potentials
         gbar = CliqueVector({ cl : self.Factor.zeros(domain.project(cl)) for cl in cliques })
+        zeros = CliqueVector({ cl : self.Factor.zeros(domain.project(cl)) for cl in cliques })
+        zeros.combine(self.structural_zeros)
         w = v = model.belief_propagation(theta)
         beta = 0
 
@@ -179,7 +181,7 @@ class FactoredInference:
             u = (1-c)*w + c*v
             _, g = self._marginal_loss(u) # not interested in loss of this query point
             gbar = (1-c)*gbar + c*g
-            theta = -t*(t+1)/(4*L+beta)/self.model.total * gbar 
+            theta = zeros + -t*(t+1)/(4*L+beta)/self.model.total * gbar 
             v = model.belief_propagation(theta)
             w = (1-c)*w + c*v
            
